@@ -75,3 +75,28 @@ Theorem C03_compiled_program_rereads : forall source ss ps, stmts_wf ss -> compi
            (map (fun s => (sq_name s, den_select source sc vals s)) (rev rctes), den_select source sc vals q).
 Proof. exact compiled_program_rereads. Qed.
 Print Assumptions C03_compiled_program_rereads.
+
+(** ** the join condition, spelled out: a bare column name k means $left.k == $right.k, several
+    conditions are AND-ed from left to right (the expression the semantic theorem evaluates) *)
+Theorem C03_bare_key : forall sc p, iquoted p = false -> assoc_str builtin_idents (iname p) = None ->
+  scope_get sc (iname p) = None ->
+  rewrite_simple_cond sc (EQual [p]) =
+  EBin (EQual [mkIdent w_left None false; p]) None KEq (EQual [mkIdent w_right None false; p]).
+Proof. intros sc p Hq Hb Hs. unfold rewrite_simple_cond, bare_name. rewrite Hq, Hb, Hs. reflexivity. Qed.
+Print Assumptions C03_bare_key.
+
+Theorem C03_conditions_anded : forall sc c1 c2 c3,
+  build_join_cond sc [c1; c2; c3] =
+  EBin (EBin (rewrite_simple_cond sc c1) None KAnd (rewrite_simple_cond sc c2)) None KAnd (rewrite_simple_cond sc c3).
+Proof. reflexivity. Qed.
+Print Assumptions C03_conditions_anded.
+
+(** a name bound by a let or a parameter, a constant, a quoted or a dotted name is an ordinary
+    condition, not a key *)
+Theorem C03_bound_name_is_not_a_key : forall sc p v, iquoted p = false -> scope_get sc (iname p) = Some v ->
+  rewrite_simple_cond sc (EQual [p]) = EQual [p].
+Proof.
+  intros sc p v Hq Hs. unfold rewrite_simple_cond, bare_name. rewrite Hq, Hs.
+  destruct (assoc_str builtin_idents (iname p)); reflexivity.
+Qed.
+Print Assumptions C03_bound_name_is_not_a_key.
